@@ -15,6 +15,11 @@ Dying = the allowed prefix is written, a Crash (BaseException) is raised, and fr
 intercepted operation is a no-op that re-raises Crash, so `finally:` / `except BaseException:` clean-up
 code in the library cannot tidy up after its own death. With kill=True the process really sends
 itself SIGKILL at that instant instead (used to validate the simulated crash states).
+
+With interrupt=True the same instants are used for the *other* way a run ends early: an exception that arrives
+from outside (Ctrl-C / SIGINT, a sys.exit from a signal handler). A KeyboardInterrupt is raised at the instant
+(inside a write: after b bytes were produced - the rest never is), and the process LIVES ON: `finally:` blocks and
+context managers run and their file-system operations take effect.
 """
 
 from __future__ import annotations
@@ -58,6 +63,12 @@ class _Proxy:
             data = data.encode()
         if self._fs.crashed:
             raise Crash
+        if self._fs.interrupt:
+            # the producer of the data can be interrupted as well: before it hands anything over, or part-way
+            n = self._fs._before("uwrite", self._path, len(data), data=data)
+            if n is not None:
+                self._buf += data[:n]
+                raise KeyboardInterrupt
         if not self._buffered:
             self._to_os(data)
             return len(data)
@@ -110,10 +121,11 @@ class _Proxy:
 
 
 class FaultFS:
-    def __init__(self, root, plan=None, *, kill=False):
+    def __init__(self, root, plan=None, *, kill=False, interrupt=False):
         self.root = str(Path(root).resolve())
         self.plan = plan
         self.kill = kill
+        self.interrupt = interrupt
         self.events = []
         self.crashed = False
         self._saved = {}
@@ -135,6 +147,9 @@ class FaultFS:
         return os.path.relpath(s, self.root)
 
     def _die(self):
+        if self.interrupt:
+            self.plan = None  # once
+            raise KeyboardInterrupt
         self.crashed = True
         if self.kill:
             os.kill(os.getpid(), signal.SIGKILL)
@@ -147,6 +162,11 @@ class FaultFS:
         idx = len(self.events)
         if self.plan is not None and self.plan[0] == idx:
             b = self.plan[1]
+            if kind == "uwrite" and b is not None:
+                # part of the data is handed over (to the user-space buffer), the rest is never produced
+                self.events.append((kind, self._rel(path), n, f"INTERRUPT-AFTER-{min(b, len(data))}"))
+                self.plan = None
+                return min(b, len(data))
             if b is None or kind != "write":
                 self.events.append((kind, self._rel(path), n, "CRASH-BEFORE"))
                 self._die()
@@ -155,6 +175,9 @@ class FaultFS:
             real.write(data[:b])
             real.flush()
             self.events.append((kind, self._rel(path), n, f"CRASH-AFTER-{b}"))
+            if self.interrupt:
+                self.plan = None
+                raise KeyboardInterrupt
             self.crashed = True
             try:
                 real.close()
